@@ -226,3 +226,291 @@ def summary(d):
     if r:
         out.append("chmap=%s" % [int.from_bytes(b[4 * i:4 * i + 4], "little") for i in range(len(b) // 4)])
     return " ".join(out)
+
+
+# ---- analysis of a script + transcript: what was set, what must come back, which known-finding classes the script is in -----
+
+WAVLIKE = ("wav", "wavex", "rf64", "rifx")
+STR_SUPPORT = {"wav": (1, 2, 3, 4, 5, 6, 7, 9, 16), "wavex": (1, 2, 3, 4, 5, 6, 7, 9, 16), "rf64": (1, 2, 3, 4, 5, 6, 7, 9, 16),
+               "rifx": (1, 2, 3, 4, 5, 6, 7, 9, 16), "aiff": (1, 2, 3, 4, 5), "caf": STR_TYPES}
+BEXT_SUPPORT = ("wav", "wavex", "rf64", "rifx")
+CART_SUPPORT = ("wav", "rf64", "rifx")
+CUE_SUPPORT = ("wav", "wavex", "rifx", "aiff")
+INST_SUPPORT = ("wav", "wavex", "rifx", "aiff")
+CHMAP_SUPPORT = ("wavex", "rf64", "aiff", "caf")
+CAF_KEYS = {1: b"title", 2: b"copyright", 3: b"software", 4: b"artist", 5: b"comment", 6: b"date", 7: b"album", 8: b"license", 9: b"tracknumber", 16: b"genre"}
+AIFF_LIMIT = {1: 8190, 5: 8190, 4: 8191, 2: 8192, 3: 8180}
+
+
+def cont_of(fmt):
+    if (fmt >> 28) & 3 == 2 and (fmt >> 16) & 0xfff == 0x01:
+        return "rifx"
+    for k, v in CONT.items():
+        if k != "rifx" and (fmt >> 16) & 0xfff == v >> 16:
+            return k
+    return "other"
+
+
+class Setup:
+    """what a script did on its write handle"""
+    def __init__(self):
+        self.cont, self.ch, self.sr, self.sub = "other", 0, 0, 0
+        self.calls = []          # (kind, late, ret_ok, value, raw ret)   kind: ('str', ty) | 'bext' | 'cart' | 'cues' | 'inst' | 'chmap'
+        self.wrote = None        # (n items, hex)
+        self.wret = None
+        self.close_ret = None
+        self.reopen = None
+        self.meta = None
+        self.read = None
+        self.crash = None
+        self.nstr_calls = 0
+
+
+def analyse(script, lines):
+    s = Setup()
+    ops = [l.split() for l in script.split("\n") if l.strip() and not l.startswith("#")]
+    late = False
+    for k, t in enumerate(ops):
+        l = lines[k] if k < len(lines) else ""
+        if l.startswith(("CRASH", "ABORT", "TIMEOUT")) or (k < len(lines) and l == "" and k + 1 < len(lines) and lines[k + 1].startswith(("CRASH", "ABORT", "TIMEOUT"))):
+            s.crash = l or lines[k + 1]
+            break
+        if t[0] == "open" and t[1] == "h0":
+            kv = dict(x.split("=", 1) for x in t[4:] if "=" in x)
+            fmt = int(kv.get("fmt", "0"), 16)
+            s.cont, s.ch, s.sr, s.sub = cont_of(fmt), int(kv.get("ch", 0)), int(kv.get("sr", 0)), fmt & 0xffff
+            s.open_ok = l.startswith("open=ok")
+        elif t[0] == "setstr" and t[1] == "h0":
+            ty = int(t[2], 0)
+            val = cstr(bytes.fromhex(t[3])) if len(t) > 3 and t[3] != "null" else None
+            s.nstr_calls += 1
+            s.calls.append((("str", ty), late, l.startswith("ret=0 "), val, l, s.nstr_calls))
+        elif t[0] == "cmd" and t[1] == "h0":
+            cid = int(t[2], 16)
+            blob = bytes.fromhex(t[4]) if len(t) > 4 and t[4] not in ("null", "zero") else b""
+            kind = {SFC_SET_BROADCAST_INFO: "bext", SFC_SET_CART_INFO: "cart", SFC_SET_INSTRUMENT: "inst", SFC_SET_CHANNEL_MAP_INFO: "chmap"}.get(cid)
+            if kind:
+                s.calls.append((kind, late, l.startswith("ret=1 "), blob[:int(t[3])], l, 0))
+        elif t[0] == "setcues" and t[1] == "h0":
+            cues = []
+            for tok in (t[3].split(",") if len(t) > 3 and t[3] else []):
+                nums, name = tok.split("/")
+                cues.append(tuple(int(nums[8 * i:8 * i + 8], 16) for i in range(6)) + (cstr(bytes.fromhex(name))[:255],))
+            s.calls.append(("cues", late, l.startswith("ret=1 "), cues, l, 0))
+        elif t[0] == "w" and t[1] == "h0":
+            late = True
+            s.wrote = (int(t[4]), t[5] if len(t) > 5 else "")
+            s.wret = l
+        elif t[0] == "close" and t[1] == "h0":
+            s.close_ret = l
+        elif t[0] == "open" and t[1] == "h1":
+            s.reopen = l
+        elif t[0] == "getmeta" and t[1] == "h1":
+            s.meta = parse_meta(l)
+        elif t[0] == "r" and t[1] == "h1":
+            s.read = l
+    if s.crash is None:
+        for l in lines:
+            if l.startswith(("CRASH", "ABORT", "TIMEOUT")):
+                s.crash = l
+    return s
+
+
+def caf_fits(pairs):
+    """put_key_value of caf.c over the (type, text) pairs in slot order: which ones fit the 16 KiB buffer"""
+    idx, kept = 0, []
+    for ty, v in pairs:
+        k = CAF_KEYS[ty]
+        if idx + len(k) + len(v) + 2 > 16384 or idx + len(k) + len(v) + 2 >= 16384:
+            continue
+        idx += len(k) + len(v) + 2
+        kept.append((ty, v))
+    return kept
+
+
+def printable(b):
+    return all(0x20 <= c <= 0x7e for c in b)
+
+
+def expected(s, package):
+    """(expected values after re-open, classes of the script).  expected: dict kind -> value, only for kinds the container
+    stores (the support matrix of the property); strings: dict type -> bytes."""
+    c = s.cont
+    classes = set()
+    exp = {"str": {}}
+    pkgname = package.split("-")[0].encode()
+    # strings
+    slots = []                  # (type, text, late) in slot order; replaced ones removed
+    for (kind, late, ok, val, raw, n) in s.calls:
+        if kind[0] != "str":
+            continue
+        ty = kind[1]
+        if n > 32:
+            classes.add("str-slots")
+        if ty not in STR_TYPES:
+            if c in STR_SUPPORT and ty == 0:
+                classes.add("str-slots")
+            continue
+        if not ok or val is None:
+            continue
+        if ty == 3:
+            full = val if pkgname in val else (package.encode() if not val else val + b" (" + package.encode() + b")")
+            if len(full) > 127:
+                classes.add("software-127")
+            val = full
+        if late and any(t == ty and not l for (t, v, l) in slots):
+            classes.add("late-replace")
+        slots = [(t, v, l) for (t, v, l) in slots if t != ty] + [(ty, val, late)]
+    if c in STR_SUPPORT:
+        sup = STR_SUPPORT[c]
+        for (ty, v, l) in slots:
+            if ty in sup:
+                exp["str"][ty] = v
+        stored = [(ty, v) for (ty, v, l) in slots if ty in sup]
+        if c in WAVLIKE and any(len(v) >= 2046 for ty, v in stored):
+            classes.add("info-2046")
+        if c == "aiff":
+            if any(len(v) >= AIFF_LIMIT[ty] for ty, v in stored):
+                classes.add("aiff-8190")
+            if any(ty in (2, 3) and not printable(v) for ty, v in stored):
+                classes.add("aiff-sanitize")
+            if any(ty == 3 for ty, v in stored):
+                classes.add("aiff-appl-stale")
+        if c == "caf" and len(caf_fits([(ty, v) for (ty, v, l) in slots if not l])) + len(caf_fits([(ty, v) for (ty, v, l) in slots if l])) != len(slots):
+            classes.add("caf-16k")
+    total = sum(len(v) + 10 for (ty, v, l) in slots)
+    # bext / cart
+    for kind, sup, fixed in (("bext", BEXT_SUPPORT, BEXT_FIXED), ("cart", CART_SUPPORT, CART_FIXED)):
+        acc = [(late, val) for (k, late, ok, val, raw, n) in s.calls if k == kind and ok]
+        if not acc or c not in sup:
+            continue
+        if len(acc) > 1 and acc[-1][0]:
+            classes.add("late-grow")
+        val = acc[-1][1]
+        if kind == "bext":
+            f = unpack_fields(BEXT_FIELDS, val)
+            hist = norm_history(f["_var"], s.sr, s.ch, s.sub, package)
+            if len(hist) > 9638:
+                classes.add("bext-10k")
+            f.update({"version": 2, "reserved": b"", "_pad": b"", "coding_history_size": len(hist)})
+            exp["bext"] = bext_bytes({k: v for k, v in f.items() if k != "_var"}, hist)
+            total += 610 + len(hist)
+        else:
+            f = unpack_fields(CART_FIELDS, val)
+            t = norm_tag_text(f["_var"])
+            size = len(t) + (1 if len(t) & 1 else 2)
+            if size >= 16384:
+                classes.add("cart-16k")
+            f.update({"reserved": b"", "tag_text_size": size})
+            exp["cart"] = cart_bytes({k: v for k, v in f.items() if k != "_var"}, t + bytes(size - len(t)))
+            total += 2056 + size
+    # cues
+    acc = [val for (k, late, ok, val, raw, n) in s.calls if k == "cues" and ok]
+    if acc and c in CUE_SUPPORT:
+        if len(acc) > 1:
+            classes.add("cue-second-set")
+        cues = acc[-1]
+        if c == "aiff":
+            exp["cues"] = [(q[0] & 0xffff, 0, 0x61746164, 0, 0, q[5], q[6]) for q in cues]
+        else:
+            exp["cues"] = list(cues)
+            if any(q[6] for q in cues):
+                classes.add("cue-names")
+        total += 12 + 24 * len(cues)
+    # instrument
+    acc = [val for (k, late, ok, val, raw, n) in s.calls if k == "inst" and ok]
+    if acc and c in INST_SUPPORT:
+        p = inst_parse(acc[-1])
+        if c == "aiff":
+            classes.add("aiff-inst")
+        lc = max(0, min(16, p["loop_count"]))
+        loops = [(m if m in (801, 802, 803) else 800, st, en, cnt) for (m, st, en, cnt) in p["loops"][:lc]]
+        exp["inst"] = inst_bytes(p["gain"], p["basenote"], p["detune"], p["vel"], p["key"], loops)
+        if p["gain"] != 1 or p["vel"] != (0, 127) or p["key"] != (0, 127):
+            classes.add("smpl-ranges")
+        if not 0 <= p["detune"] <= 99:
+            classes.add("smpl-detune")
+        total += 44 + 24 * lc
+    acc = [val for (k, late, ok, val, raw, n) in s.calls if k == "chmap" and ok]
+    if acc and c in CHMAP_SUPPORT:
+        exp["chmap"] = acc[-1]
+    if c == "rifx" and ("cues" in exp or "cart" in exp):
+        classes.add("rifx-endian")
+    if total >= 49000:
+        classes.add("header-cache")
+    if c == "aiff" and "late-replace" in classes:
+        classes.add("aiff-late-replace")
+    return exp, classes
+
+
+def mask_cart(b):
+    """the byte after the terminator of an even-length tag text is never written by cart_var_set (malloc'ed block)"""
+    if len(b) >= CART_FIXED + 2 and b[-2] == 0:
+        return b[:-1] + b"\0"
+    return b
+
+
+def judge(s, package):
+    """the property predicate on one implementation transcript.  Returns (failures, classes); failure = (signature key, text)"""
+    exp, classes = expected(s, package)
+    F = []
+    if s.crash:
+        return [("crash", "the script ends with %s" % s.crash)], classes
+    if not getattr(s, "open_ok", False):
+        return [("open-write", "the write handle did not open")], classes
+    n, hexs = s.wrote if s.wrote else (0, "")
+    if s.wret is not None and not s.wret.startswith("ret=%d err=0" % n):
+        F.append(("write", "write of %d items answered '%s'" % (n, s.wret)))
+    if s.close_ret is not None and not s.close_ret.startswith("ret=0"):
+        F.append(("close", "sf_close answered '%s'" % s.close_ret))
+    if s.reopen is None or not s.reopen.startswith("open=ok"):
+        F.append(("reopen-null", "the closed file cannot be re-opened: %s" % s.reopen))
+        return F, classes
+    if (" frames=%d " % (n // max(1, s.ch))) not in s.reopen:
+        F.append(("audio", "%d frames were written, re-open says '%s'" % (n // max(1, s.ch), s.reopen)))
+    if s.read is not None and not s.read.startswith("ret=%d err=0 data=%s" % (n, hexs)):
+        F.append(("audio", "audio read back differs from what was written: '%s'" % s.read[:100]))
+    m = s.meta or {}
+    for ty, v in exp["str"].items():
+        if m.get(ty) != v:
+            stale = ty == 3 and m.get(ty) is not None and m[ty].startswith(v) and len(m[ty]) - len(v) <= 4
+            F.append(("str-3-stale-suffix" if stale else "str-%d" % ty, "string %s: set %r, re-opened file returns %r" % (STR_NAMES.get(ty, ty), v[:60] + (b"..%d" % len(v) if len(v) > 60 else b""), m.get(ty) if m.get(ty) is None else m.get(ty)[:60])))
+    if "bext" in exp:
+        r, b = m.get("bext", (0, b""))
+        if not r:
+            F.append(("bext-missing", "broadcast info was set (ret=1) but the re-opened file has none"))
+        elif b != exp["bext"]:
+            d = next((i for i in range(min(len(b), len(exp["bext"]))) if b[i] != exp["bext"][i]), min(len(b), len(exp["bext"])))
+            F.append(("bext-differs", "broadcast info differs from normalise(set) at struct offset %d (got %d bytes, expected %d)" % (d, len(b), len(exp["bext"]))))
+    if "cart" in exp:
+        r, b = m.get("cart", (0, b""))
+        if not r:
+            F.append(("cart-missing", "cart info was set (ret=1) but the re-opened file has none"))
+        elif mask_cart(b) != mask_cart(exp["cart"]):
+            d = next((i for i in range(min(len(b), len(exp["cart"]))) if b[i] != exp["cart"][i]), min(len(b), len(exp["cart"])))
+            F.append(("cart-differs", "cart info differs from normalise(set) at struct offset %d (got %d bytes, expected %d)" % (d, len(b), len(exp["cart"]))))
+    if "cues" in exp:
+        r, cnt, cues = m.get("cues", (0, 0, []))
+        want = exp["cues"]
+        if not r:
+            F.append(("cues-missing", "%d cue points were set (ret=1) but the re-opened file has none" % len(want)))
+        elif [q[:6] for q in cues] != [q[:6] for q in want] or cnt != len(want) or m.get("cuecount") != (1, len(want)):
+            F.append(("cues-differ", "cue points differ: set %s…, got %s… (count %d)" % (want[:3], cues[:3], cnt)))
+        elif [q[6] for q in cues] != [q[6] for q in want]:
+            F.append(("cue-names-empty" if all(q[6] == b"" for q in cues) else "cue-names-differ", "cue names differ: set %s, got %s" % ([q[6] for q in want][:4], [q[6] for q in cues][:4])))
+    if "inst" in exp:
+        r, b = m.get("inst", (0, b""))
+        if not r:
+            F.append(("inst-missing", "an instrument was set (ret=1) but the re-opened file has none"))
+        elif b != exp["inst"]:
+            g, w = inst_parse(b), inst_parse(exp["inst"])
+            diff = sorted(k for k in g if g[k] != w[k])
+            key = "inst-ranges-default" if set(diff) <= {"gain", "vel", "key"} and g["gain"] == 1 and g["vel"] == (0, 127) and g["key"] == (0, 127) else \
+                  "inst-detune" if diff == ["detune"] else \
+                  "inst-ranges-detune" if set(diff) <= {"gain", "vel", "key", "detune"} else "inst-differs"
+            F.append((key, "instrument differs in %s: set %s, got %s" % (",".join(diff), {k: w[k] for k in diff}, {k: g[k] for k in diff})))
+    if "chmap" in exp:
+        r, b = m.get("chmap", (0, b""))
+        if not r or b != exp["chmap"]:
+            F.append(("chmap", "channel map set %s (ret=1), re-opened file returns %s" % (exp["chmap"].hex(), b.hex() if r else None)))
+    return F, classes
